@@ -53,7 +53,7 @@ where
         }
         Ok(None) => {}
         Err(e) => {
-            if src.seen_doc_end() && !e.is_budget_or_io_error() {
+            if src.trailing_error_may_be_ignored(&e) && !e.is_budget_or_io_error() {
                 // Trailing garbage after a proper document end marker is ignored.
             } else {
                 return Err(wrap_err(e));
